@@ -562,6 +562,19 @@ def build_task(L, cfg, events):
                             n_iterations=cfg['n_iter'], min_depth=cfg['min_depth'], max_depth=cfg['max_depth'],
                             functions=list(cfg['functions']), lower_bound=list(cfg['lb']),
                             upper_bound=list(cfg['ub']))
+    if cfg.get('int_start') and cfg['space'] != 'tree':
+        # a deterministic lattice start: every agent's position assigned (through the public setter) as an integer-typed
+        # array of whole numbers inside the box
+        k_ = 0
+        for a in sp.agents:
+            p_ = np.zeros(a.position.shape, dtype=np.int64)
+            for j in range(p_.shape[0]):
+                lo_, hi_ = (0.0, 1.0) if cfg['space'] == 'hyper' else (float(cfg['lb'][j]), float(cfg['ub'][j]))
+                lo_i, hi_i = int(np.ceil(lo_)), int(np.floor(hi_))
+                for d_ in range(p_.shape[1]):
+                    p_[j, d_] = lo_i + (k_ * 7 + 3 * j + d_) % max(1, hi_i - lo_i + 1)
+                    k_ += 1
+            a.position = p_
     # no dictionary at all when the configuration has none: that is how users build a default optimiser
     opt = L['kinds'][kind](hyperparams=dict(cfg['hyper'])) if cfg['hyper'] else L['kinds'][kind]()
     # values set later through the public setters (after construction, before the task starts)
